@@ -4,6 +4,9 @@ import math, struct
 import common as C
 
 
+VMARK = -1000000009
+
+
 def bf(b):
     return C.f64_bits_to_float(b)
 
@@ -129,13 +132,39 @@ def coq_term(tr, f):
     tus = [mg["u"] for db in tr["doublings"] for mg in db["merges"]]
     accs = [tbits(f, db["end"]["u2"]) for db in tr["doublings"]]
     fn = "nuts_eval32" if f == "f32" else "nuts_eval64"
-    return "%s [%s] %d %s %s %s" % (fn, "; ".join(ents), tbits(f, tr["start"]["logu"]), C.zlist(dirs), C.zlist(tus), C.zlist(accs))
+    tbl = "[%s]" % "; ".join(ents)
+    main = "%s %s %d %s %s %s" % (fn, tbl, tbits(f, tr["start"]["logu"]), C.zlist(dirs), C.zlist(tus), C.zlist(accs))
+    # the build_tree call of every doubling: (depth, edge, direction, its uniforms) for Model.NUTS.visited
+    calls, lo, hi = [], 0, 0
+    for k, db in enumerate(tr["doublings"]):
+        v = 1 if db["head"]["v"] == 1 else 0
+        calls.append("(%s, %s, %d, %s)" % (C.natlit(k), C.z(hi if v else lo), v, C.zlist([mg["u"] for mg in db["merges"]])))
+        if v:
+            hi += len(db["leaves"])
+        else:
+            lo -= len(db["leaves"])
+    vfn = "nuts_visited32" if f == "f32" else "nuts_visited64"
+    return "let tbl := %s in (%s) ++ (%s tbl %d [%s])" % (
+        tbl, main.replace(tbl, "tbl", 1), vfn, tbits(f, tr["start"]["logu"]), "; ".join(calls))
 
 
 def expected(tr, f, model):
     """compare the model's rendering with the trace; returns None or a description"""
     table, per = build_table(tr)
     nd = len(tr["doublings"])
+    if VMARK in model:
+        k3 = model.index(VMARK)
+        model, vis = model[:k3], model[k3:]
+        groups = []
+        for x in vis:
+            if x == VMARK:
+                groups.append([])
+            else:
+                groups[-1].append(x)
+        if model != [-2] and groups != per:
+            k = [i for i in range(max(len(groups), len(per))) if i >= len(groups) or i >= len(per) or groups[i] != per[i]][0]
+            return "doubling %d: the implementation visited %d leaves, Model.NUTS.visited enumerates %s" % (
+                k, len(per[k]) if k < len(per) else -1, groups[k] if k < len(groups) else None)
     if model == [-2]:
         return "model ran out of variates: the implementation consumed fewer uniforms than Algorithm 6 needs"
     if len(model) != 7 * nd + 5:
